@@ -5,7 +5,12 @@
 
 package grumpkin
 
-import "math/big"
+import (
+	"math/big"
+
+	"github.com/consensys/gnark-crypto/ecc"
+	"github.com/consensys/gnark-crypto/ecc/grumpkin/fr"
+)
 
 var _ = big.NewInt
 
@@ -41,3 +46,16 @@ func VerifG1ExtOp(op string, p, q *g1JacExtended, a *G1Affine) {
 func VerifG1AffineFromExt(p *G1Affine, q *g1JacExtended) { p.fromJacExtended(q) }
 func VerifG1JacFromExt(p *G1Jac, q *g1JacExtended)       { p.fromJacExtended(q) }
 func VerifG1JacUnsafeFromExt(p *G1Jac, q *g1JacExtended) { p.unsafeFromJacExtended(q) }
+
+// VerifInnerMsmG1 runs the bucket method with a forced window size c.
+func VerifInnerMsmG1(c uint64, points []G1Affine, scalars []fr.Element, nbTasks int) G1Jac {
+	var p G1Jac
+	_innerMsmG1(&p, c, points, scalars, ecc.MultiExpConfig{NbTasks: nbTasks})
+	return p
+}
+
+// VerifPartitionScalars forwards to partitionScalars (digits only).
+func VerifPartitionScalars(scalars []fr.Element, c uint64, nbTasks int) []uint16 {
+	d, _ := partitionScalars(scalars, c, nbTasks)
+	return d
+}
